@@ -146,16 +146,17 @@ def run(E: Engine, rep: Report, tier: str) -> dict:
     # ---------------------------------------------------------- CLOSURE
     # device-aware layout generation: enough traps for the maximum filling (n <= int(traps * filling) needs traps >= ceil(n / filling))
     gen = E.fn("pulser.register._layout_gen.generate_trap_coordinates")
-    abg = abstractor(E.flow(gen))
-    mt = [n for n in ast.walk(gen.node) if isinstance(n, ast.Assign) and isinstance(n.targets[0], ast.Name) and n.targets[0].id == "min_traps"]
-    ok = False
-    for n in mt:
-        v = abg.av(n.value)
-        ok = "max_layout_filling" in v.roots and "ceil" in v.tags and "Div" in v.tags and "max" in v.tags and not any(t.startswith("round") for t in v.tags) and "floor" not in v.tags
-    rep.check(ok, "CLOSURE", "generate_trap_coordinates|min_traps>=ceil(n/max_filling)", "the layout gets at least ceil(n_atoms / max_layout_filling) traps", "the automatic layout no longer guarantees ceil(n_atoms / max_layout_filling) traps: the generated register can exceed the device's maximum filling and be rejected by that same device", E.where(gen))
-    tt = [n for n in ast.walk(gen.node) if isinstance(n, ast.Assign) and isinstance(n.targets[0], ast.Name) and n.targets[0].id == "target_traps" and isinstance(n.value, ast.Call) and (dotted(n.value.func) or "") == "max"]
-    rep.check(any("min_traps" in [norm(a) for a in n.value.args] for n in tt), "CLOSURE", "generate_trap_coordinates|target>=min_traps", "target_traps = max(optimal, min_traps)", "the target number of traps can fall below the minimum", E.where(gen))
-    short = any(isinstance(n, ast.If) and isinstance(n.test, ast.Compare) and isinstance(n.test.ops[0], ast.Lt) and "len(traps)" in norm(n.test.left) and norm(n.test.comparators[0]) == "min_traps" and any(isinstance(x, ast.Raise) for x in n.body) for n in ast.walk(gen.node))
+    Sg_ = _S(E, gen)
+    MT = "max(np.ceil(Q_n / max_layout_filling).astype(int), min_traps)"
+    from .symutil import has as _has, mentions as _mentions
+
+    iters = [it for l in Sg_.log for it in l.loops if it[0] == "call" and it[1] == ("name", "range")]
+    it0 = iters[0] if iters else None
+    m_ = _has(it0, MT) if it0 is not None else None
+    ok = m_ is not None and _has(m_["Q_n"], "len(Q_seeds)") is not None or (m_ is not None and _mentions(m_["Q_n"], "atom_coords"))
+    rep.check(bool(ok), "CLOSURE", "generate_trap_coordinates|min_traps>=ceil(n/max_filling)", "the layout gets at least ceil(n_atoms / max_layout_filling) traps", f"the automatic layout no longer guarantees ceil(n_atoms / max_layout_filling) traps (number of added traps: {_sh(it0, 200)}): the generated register can exceed the device's maximum filling and be rejected by that same device", E.where(gen))
+    rep.check(it0 is not None and _has(it0, "max(Q_opt, " + MT + ")") is not None, "CLOSURE", "generate_trap_coordinates|target>=min_traps", "target_traps = max(optimal, min_traps)", "the target number of traps can fall below the minimum", E.where(gen))
+    short = any(l.kind == "raise" and any(_is(x, "len(Q_t) < " + MT) is not None for x in _sym.conj_of(l.cond)) for l in Sg_.log)
     rep.check(short, "CLOSURE", "generate_trap_coordinates|fails-if-too-few-traps", "raises when fewer than min_traps sites were found", "generate_trap_coordinates can return fewer traps than the minimum", E.where(gen))
     wal = E.fn("pulser.register.register.Register.with_automatic_layout")
     src = norm(wal.node)
